@@ -93,6 +93,11 @@ def probes(seed, cls):
         s = gen.instance(rng, src.structure(), run_max=12) + gen.rand_dna(rng, 12)
         out.append(rot_left(s, rng.randrange(len(s))))
     out.append(gen.rand_dna(gen.rng_for(seed, PROP, "probe", gen.class_name(cls), "rand"), 40))
+    # the same plasmids exported in lower case (and one in mixed case) by another tool
+    out.append(out[0].lower())
+    if len(out) > 2:
+        out.append(out[1].lower())
+    out.append(out[0][: len(out[0]) // 2].lower() + out[0][len(out[0]) // 2:])
     return out
 
 
